@@ -94,6 +94,8 @@ func init() {
 				Bound: fmt.Sprintf("all edge lists with <=%d edges x {greedy,dfs} x {ns,lp} x {sink,valign,packright,ns,bk} x {straight,polyline,ortho} x {fixed, per-node even widths, per-node mixed-parity widths (centres on halves)}", d)},
 			{Name: "G-splines", BudgetS: 5, HeapMB: 256, Space: spaceG(1, d-1, 0, nil), Eval: stdEval("C05", staticGrid(gs), or),
 				Bound: fmt.Sprintf("all edge lists with <=%d edges x ... x splines", d-1)},
+			{Name: "G-splines-deep", BudgetS: 5, HeapMB: 256, Space: spaceG(d, d, 0, nil), Eval: stdEval("C05", staticGrid(gridSpec{P1: allP1, P2: allP2, P4: saP4, P5: []int{4}, SZ: []int{1, 9}}.list()), or),
+				Bound: fmt.Sprintf("all edge lists with %d edges x {greedy,dfs} x {ns,lp} x 4 size-aware positioners x splines x {fixed, per-node mixed-parity widths}", d)},
 			{Name: "G-deep", Space: spaceG(d+1, d+1, tierPick(tier, 0, 5), nil), Eval: stdEval("C05", staticGrid(g5), or),
 				Bound: fmt.Sprintf("all edge lists with %d edges x {greedy,dfs} x {ns,lp} x {sink,valign,packright,bk} x {polyline,ortho} x per-node sizes (even and mixed-parity widths)", d+1)},
 			{Name: "G-random-greedy", Space: spaceG(1, 4, 0, cyclic), Eval: stdEval("C05", staticGrid(gridSpec{P1: []int{2}, P2: allP2, P4: []int{0}, P5: []int{2}, SZ: []int{2}}.list()), or),
@@ -124,6 +126,8 @@ func init() {
 				Bound: "all edge lists with <=4 edges x b&k {balanced,0,3} x {straight,polyline,ortho} (bend-inside-node clause not applied to b&k)"},
 			{Name: "G-splines", BudgetS: 5, HeapMB: 256, Space: spaceG(1, d-1, 0, nil), Eval: stdEval("C06", staticGrid(gs), or),
 				Bound: fmt.Sprintf("all edge lists with <=%d edges x greedy x {ns,lp} x 4 size-aware positioners x splines", d-1)},
+			{Name: "G-splines-deep", BudgetS: 5, HeapMB: 256, Space: spaceG(d, d, 0, nil), Eval: stdEval("C06", staticGrid(gridSpec{P1: []int{0}, P2: allP2, P4: saP4, P5: []int{4}, SZ: []int{1, 9}}.list()), or),
+				Bound: fmt.Sprintf("all edge lists with %d edges x greedy x {ns,lp} x 4 size-aware positioners x splines x {fixed, per-node mixed-parity widths}", d)},
 			{Name: "G-deep", Space: spaceG(d+1, d+1, tierPick(tier, 0, 6), nil), Eval: stdEval("C06", staticGrid(g5), or),
 				Bound: fmt.Sprintf("all edge lists with %d edges x greedy x {ns,lp} x 4 size-aware positioners x {polyline,ortho} x per-node sizes", d+1)},
 			{Name: "component-next-to-long-edges", Space: func(emit func(Input)) {
